@@ -5,13 +5,16 @@ from .util import call
 
 ID = 'C02'
 LEAN_MODULE = 'KernProofs.C02'
-THEOREMS = ['KM.C02.C02_one_stage_per_line', 'KM.C02.C02_measure_index_ok', 'KM.C02.splitLinesAux_line', 'KM.C02.line_boundary_free', 'KM.C02.splitRow_renderLine', 'KM.C02.C02_reader_literal', 'KM.C02.C02_surplus_data', 'KM.C02.C02_surplus_operator', 'KM.C02.C02_surplus_comment', 'KM.C02.cellsLoop_error', 'KM.C02.C02_surplus_row_rejected', 'KM.C02.C02_row_error_propagates', 'KM.C02.C02_data_cell_node', 'KM.C02.C02_split_and_end', 'KM.rowStep_shape', 'KM.runRows_startsOk', 'KM.runRows_stageCount', 'KM.cellStep_frame', 'KM.cellStep_length', 'KM.addNode_length']
+THEOREMS = ['KM.C02.C02_one_stage_per_line', 'KM.C02.C02_measure_index_ok', 'KM.C02.splitLinesAux_line', 'KM.C02.line_boundary_free', 'KM.C02.splitRow_renderLine', 'KM.C02.C02_reader_literal', 'KM.C02.C02_surplus_data', 'KM.C02.C02_surplus_operator', 'KM.C02.C02_surplus_comment', 'KM.C02.cellsLoop_error', 'KM.C02.C02_surplus_row_rejected', 'KM.C02.C02_row_error_propagates', 'KM.C02.C02_data_cell_node', 'KM.C02.C02_split_and_end', 'KM.rowStep_shape', 'KM.runRows_startsOk', 'KM.runRows_stageCount', 'KM.cellStep_frame', 'KM.cellStep_length', 'KM.addNode_length',
+            'KM.C02T.C02_tree', 'KM.C02T.C02_tree_text', 'KM.C02T.C02_import_succeeds', 'KM.C02T.C02_tree_exists', 'KM.C02T.cellStep_body', 'KM.C02T.cellStep_header',
+            'KM.C02T.emitM_eq', 'KM.C02T.cellStep_track', 'KM.C02T.cellStep_ok', 'KM.C02T.cellsLoop_track', 'KM.C02T.cellsLoop_ok', 'KM.C02T.rowStep_track',
+            'KM.C02T.rowStep_ok', 'KM.C02T.runRows_track', 'KM.C02T.runRows_ok', 'KM.C02T.step_cells']
 FINGERPRINTS = ['importer.Importer', 'document.Node', 'document.MultistageTree', 'document.SignatureNodes', 'tokens.HeaderToken.export']
 RULE = ('(a) EVERY spine-operator layout with <= 2 initial spines, <= 4 live paths and <= 2 (quick) / 3 (thorough) operator rows, each column of each '
         'operator row being one of * *^ *v *-, filled with distinguishable data cells; (b) generated documents of the full grammar (quick 40 / '
         'thorough 400); (c) cells with quotes, commas, spaces, non-ASCII; (d) lines with one surplus cell of each kind (data token, spine operator, '
         'field comment) in every position: the imported tree (stages, nodes per stage, parent links, header node, spine id, cell text) is compared '
-        'with the reference spine-path tracker run on the source grid and with the model; surplus cells must raise; non-trivial = layout with at '
+        'with the Lean spine-path tracker (the specification of theorem C02_tree, run on the text by the driver), with a reference tracker run on the source grid and with the model; surplus cells must raise; non-trivial = layout with at '
         'least one split or join (documents: >= 2 data rows and a note); distinct = distinct source text')
 ASSUMPTIONS = ['cells contain no TAB and no line-boundary character (they cannot, in the in-memory API)']
 
@@ -88,8 +91,9 @@ def layout_doc(n0, rows):
     return {'headers': hs, 'rows': out, 'profile': 'layout'}
 
 
-def check_tree(ctx, case, nt, clause):
-    """the implementation's tree against the reference tracker on the grid"""
+def check_tree(ctx, case, nt, clause, track=None):
+    """the implementation's tree against the Lean spine-path tracker (Spec.Track, the specification of theorem C02_tree) run on the
+    text, and against the reference tracker on the generator's grid"""
     import docrun, impl
     if case.doc is None:
         ctx.fail({'text': case.text, 'clause': clause + ': import'}, 'a text that obeys the spine-path rules does not import', impl=case.import_result)
@@ -97,6 +101,19 @@ def check_tree(ctx, case, nt, clause):
     exp = docrun.grid_tree(case.adoc)
     io = impl.doc_obs(case.doc, case.errors)
     got = [[{'parent': tuple(n['parent']) if n['parent'] else None, 'hdr': tuple(n['hdr']) if n['hdr'] else None} for n in st] for st in io['stages']]
+    if track is not None:
+        ctx.count('lean_tracker:' + ('wf' if track['wf'] else 'not-wf'))
+        if not track['wf']:
+            ctx.fail({'text': case.text, 'clause': clause + ': wf'}, 'the generator produced a text with surplus cells (harness defect)', core=False)
+        else:
+            lean = [[{'parent': tuple(n[0]) if n[0] else None, 'hdr': tuple(n[1]) if n[1] else None} for n in st] for st in track['skel']]
+            ctx.seen({'text': case.text, 'clause': clause + ': lean tracker'}, nt)
+            if got != lean:
+                k = next((i for i, (a, b) in enumerate(zip(got, lean)) if a != b), min(len(got), len(lean)))
+                ctx.fail({'text': case.text, 'clause': clause + ': skeleton (Lean tracker)', 'first_differing_stage': k},
+                         'the imported tree does not have the skeleton of the spine-path tracker (stages / nodes / parent links / header nodes)',
+                         impl=got[k] if k < len(got) else len(got), expected=lean[k] if k < len(lean) else len(lean))
+                return
     want = [[{'parent': tuple(n['parent']) if n['parent'] else None, 'hdr': tuple(n['hdr']) if n['hdr'] else None} for n in st] for st in exp]
     ctx.seen({'text': case.text, 'clause': clause}, nt)
     if got != want:
@@ -129,17 +146,19 @@ def explore(ctx, depth):
     for c in lcases:
         c.import_impl()
     mresp = docrun.model_exports(ctx, lcases, [[{'cats': docrun.ALLC, 'enc': 'kern'}] for _ in lcases], tree=True)
-    for case, mr in zip(lcases, mresp):
+    tracks = ctx.driver.ask([{'op': 'doc.track', 'text': c.text} for c in lcases])
+    for case, mr, tr in zip(lcases, mresp, tracks):
         nt = any(c['k'] == 'op' and c['text'] in ('*^', '*v') for r in case.adoc['rows'] if r['kind'] == 'cells' for c in r['cells'])
         docrun.tie_import(ctx, case, mr, tree=True)
-        check_tree(ctx, case, nt, 'operator layout')
+        check_tree(ctx, case, nt, 'operator layout', tr)
     ctx.count('operator_layouts', len(lcases))
     # (b) generated documents
     cases = docrun.make_cases(ctx, 40 if depth == 'quick' else 400)
     mresp = docrun.model_exports(ctx, cases, [[] for _ in cases], tree=True)
-    for case, mr in zip(cases, mresp):
+    tracks = ctx.driver.ask([{'op': 'doc.track', 'text': c.text} for c in cases])
+    for case, mr, tr in zip(cases, mresp, tracks):
         docrun.tie_import(ctx, case, mr, tree=True)
-        check_tree(ctx, case, docrun.nontrivial(case), 'document')
+        check_tree(ctx, case, docrun.nontrivial(case), 'document', tr)
     # (c) literal cell text through the line reader, (d) surplus cells
     specials = ['"quoted"', '"open', 'a,b', 'a b', ' lead', 'trail ', 'señor', '日本', 'x"y', "it's", '""', 'a;b', '\\t', 'r\\n', 'é́', '  ', 'a\x0bb'[:1] + 'b']
     rng = ctx.rng
